@@ -161,9 +161,30 @@ fn cmd_run(args: &[String]) -> i32 {
         let current_idx = current_idx.clone();
         let cap_ms = cap_ms.clone();
         let side = format!("{out_path}.abandoned");
+        // memory cap per worker (resident set): symbolic computations on the bundled benchmark models
+        // can need many GB, and sixteen workers doing so at once would meet the kernel's OOM killer;
+        // like the wall-clock cap this ends the worker and records the run as abandoned, never as a verdict
+        let mem_cap_kb = arg_u64(args, "--mem-cap-mb", 0) * 1024;
         std::thread::spawn(move || {
+            let page_kb = (unsafe { libc::sysconf(libc::_SC_PAGESIZE) } as u64).max(1024) / 1024;
+            let mut tick = 0u64;
             loop {
-                std::thread::sleep(Duration::from_millis(250));
+                std::thread::sleep(Duration::from_millis(50));
+                tick += 1;
+                if mem_cap_kb > 0 {
+                    let rss_kb = std::fs::read_to_string("/proc/self/statm")
+                        .ok()
+                        .and_then(|t| t.split_whitespace().nth(1).and_then(|v| v.parse::<u64>().ok()))
+                        .unwrap_or(0)
+                        * page_kb;
+                    if rss_kb > mem_cap_kb {
+                        let _ = std::fs::write(&side, format!("{} memory\n", current_idx.load(std::sync::atomic::Ordering::Relaxed)));
+                        unsafe { libc::_exit(0) };
+                    }
+                }
+                if tick % 5 != 0 {
+                    continue;
+                }
                 let began = current.load(std::sync::atomic::Ordering::Relaxed);
                 if began != u64::MAX && (start.elapsed().as_millis() as u64).saturating_sub(began) > cap_ms.load(std::sync::atomic::Ordering::Relaxed) {
                     let _ = std::fs::write(&side, format!("{}\n", current_idx.load(std::sync::atomic::Ordering::Relaxed)));
